@@ -133,3 +133,31 @@ def string_functions():
 
 def obligations():
     return dim_contract() + initialisation() + data_items() + empty_item_protocol() + input_forms() + string_functions()
+
+
+def print_at():
+    """PRINT@ is a one-line group (position call + PRINT): its numeric items are routed through the number formatter
+    exactly like those of a plain PRINT"""
+    def run():
+        res = []
+        for items in ("A", "A;B$;C", 'A$;"x";B'):
+            plain = convert("10 PRINT %s\n" % items, add_standard_prefix=False)
+            at = convert("10 PRINT@64,%s\n" % items, add_standard_prefix=False)
+            body_plain = plain.split("10 ", 1)[1].strip()
+            body_at = at.split("10 ", 1)[1].strip()
+            ok = body_at == "RUN ecb_at(64.0) \\ " + body_plain
+            res.append(ob("print-at/%s" % items, ok, "RUN ecb_at(64.0) \\ " + body_plain, body_at))
+        return res
+    return guarded("print-at", run)
+
+
+def helpers_shared_with_c20():
+    from tx import p_c20
+    return [dict(o, id="helpers/" + o["id"]) for o in p_c20.string_fn() + p_c20.instr() + p_c20.read_filter() + p_c20.filter_chain()]
+
+
+_c03_base = obligations
+
+
+def obligations():  # noqa: F811
+    return _c03_base() + print_at() + helpers_shared_with_c20()
